@@ -41,3 +41,23 @@ From TA Require Import FloatInst Proofs.Wiring Proofs.FloatErr Proofs.FloatFast.
 Theorem C07_fast_binary64_range : forall p s xs, fast_new FOps p = Ok s -> Forall inb xs ->
   Forall (fun o => finF o /\ (0 <= FR o <= 100)%R) (fast_outs FOps s xs).
 Proof. exact fast_float_range. Qed.
+
+(* ---- binary64: EfficiencyRatio stays in [0, 1 + (3n+5) 2^-53] (inside the property's 1e-9 slack for every period up to 10^6)
+        at every step whose volatility is not zero — + and - of floats have a purely relative rounding error, so the float
+        volatility is at least (1 - 2^-53)^(2n) times the real path length, which bounds |first - x| by the triangle inequality.
+        Periods <= 2^46, finite inputs of magnitude at most M <= 2^900; the output formula itself is C03_er_any_carrier ---- *)
+From Coq Require Import Floats.
+From Flocq Require Import Core.
+From TA Require Import Proofs.FloatSma Proofs.GEr Proofs.FloatEr.
+Theorem C07_er_binary64_range : forall p s xs M, er_new FOps p = Ok s -> (1 <= M)%R -> (M <= bpow radix2 900)%R ->
+  (p <= 70368744177664)%N -> Forall (okin M) xs ->
+  forall j, (j < length xs)%nat ->
+    let o := nth j (res_outs (er_next FOps) s xs) 0%float in
+    let v := ger_vol (N.to_nat p) (firstn j xs) (nth j xs 0%float) in
+    finF v /\ (0 <= FR v)%R /\ (FR v = 0%R \/ (finF o /\ (0 <= FR o <= 1 + (3 * INR (N.to_nat p) + 5) * u)%R)).
+Proof. exact er_float_range. Qed.
+(* v is the volatility the code divides by (and o = |first - x| / v by C03_er_any_carrier) *)
+Theorem C07_er_volatility_def : forall p h x, ger_vol p h x =
+  (if (length h <? p)%nat then fst (er_vol_loop FOps (0%float, hd 0%float h) (h ++ x :: nil))
+   else fst (er_vol_loop FOps (0%float, hd 0%float (Ring.lastn (S p) (h ++ x :: nil))) (tl (Ring.lastn (S p) (h ++ x :: nil))))).
+Proof. reflexivity. Qed.
